@@ -24,6 +24,7 @@ Norm(cfg, i) == [raises |-> "no", wild |-> FALSE, doc |-> i.doc,
 Devs == {"numpydoc_embedded_unparsable",       \* wild : class/pydantic/function with a NumPy docstring: descriptions (and docstring types) are lost
          "google_return_mangled",              \* wild : class/pydantic/function with a Google docstring and a return entry
          "class_dict_no_default_raises",       \* exact: class/pydantic emit of a `dict` parameter without default raises TypeError
+         "str_default_with_dot_truncated",     \* wild : emit_default_doc + a string default containing a full stop: cut at it when read back from the docstring (function: SyntaxError)
          "empty_str_default_residue",          \* exact: emit_default_doc + empty-string default leaves a dangling 'Defaults to' in the description
          "function_none_default_as_str",       \* wild (entry): function + emit_default_doc: a None default comes back as the string '(None)' (annotation Optional[str]); not every such entry is affected
          "function_neg_default_nonscalar_ast", \* wild (entry): negative default under a non-scalar annotation comes back as an AST node
@@ -42,9 +43,10 @@ AsBuiltP(en, cfg, p) ==
       \* class / pydantic / function
       r1 == IF on("empty_str_default_residue") /\ Embedded(cfg) /\ cfg.edd /\ p.def = "str_empty"
             THEN <<[e0 EXCEPT !.doc = "residue"], {"empty_str_default_residue"}>> ELSE <<e0, {}>>
+      r1b == r1
       r2 == IF on("function_none_default_as_str") /\ cfg.fmt = "function" /\ cfg.edd /\ p.def = "None"
-            THEN <<[r1[1] EXCEPT !.wild = TRUE],
-                   r1[2] \cup {"function_none_default_as_str"}>> ELSE r1
+            THEN <<[r1b[1] EXCEPT !.wild = TRUE],
+                   r1b[2] \cup {"function_none_default_as_str"}>> ELSE r1b
       r3 == IF on("function_neg_default_nonscalar_ast") /\ cfg.fmt = "function" /\ p.typ = "Union_int_str" /\ p.def = "int_neg"
             THEN <<[r2[1] EXCEPT !.wild = TRUE], r2[2] \cup {"function_neg_default_nonscalar_ast"}>> ELSE r2
       \* argparse
@@ -69,14 +71,16 @@ AsBuilt(en, cfg, i) ==
   LET n == Len(i.params)
       per == [k \in 1..n |-> AsBuiltP(en, cfg, i.params[k])]
       wildNp == "numpydoc_embedded_unparsable" \in en /\ cfg.style = "numpydoc" /\ Embedded(cfg)
+      wildDot == "str_default_with_dot_truncated" \in en /\ Embedded(cfg) /\ cfg.edd /\ \E k \in 1..n : i.params[k].def = "str_dot"
       wildGr == "google_return_mangled" \in en /\ cfg.style = "google" /\ Embedded(cfg) /\ i.ret # NoRet
       dictRaise == "class_dict_no_default_raises" \in en /\ cfg.fmt \in {"class", "pydantic"}
                    /\ \E k \in 1..n : i.params[k].typ = "dict" /\ i.params[k].def = "absent"
       fired == UNION {per[k][2] : k \in 1..n}
                \cup (IF wildNp THEN {"numpydoc_embedded_unparsable"} ELSE {})
                \cup (IF wildGr THEN {"google_return_mangled"} ELSE {})
+               \cup (IF wildDot THEN {"str_default_with_dot_truncated"} ELSE {})
                \cup (IF dictRaise THEN {"class_dict_no_default_raises"} ELSE {})
-  IN [out |-> [raises |-> IF dictRaise THEN "TypeError" ELSE "no", wild |-> wildNp \/ wildGr, doc |-> i.doc,
+  IN [out |-> [raises |-> IF dictRaise THEN "TypeError" ELSE "no", wild |-> wildNp \/ wildGr \/ wildDot, doc |-> i.doc,
                params |-> [k \in 1..n |-> per[k][1]],
                ret |-> NormR(cfg, i.ret)],
       fired |-> fired]
